@@ -25,26 +25,29 @@ CHECKS['C01'] = dict(
     text='Structural clauses only: Dhuhr is Ok in every outcome of the conventional layer and in every skeleton world (always reported); '
          'modular-angle hygiene of every combination of wrapped angles - differences of the right ascension across days are continuous '
          'for every position of the 360->0 seam (R1.2); the Dhuhr term depends on no method parameter and not on weather. '
-         'The 10-second agreement with an independent ephemeris is numeric and is not decided.',
+         'The 10-second agreement with an independent ephemeris is numeric and is not decided.'
+         ' Includes the clock-time conversion rules R11.4/R11.7 (Dhuhr is reported only if its conversion cannot fail).',
     note=ASSUME + '; the Sun\'s RA moves < 1.2 deg/day',
     technique='typestate over skeleton worlds + term-level modular-arithmetic (residue) analysis + dependence (non-interference) on reconstructed terms')
 CHECKS['C05'] = dict(
     text='Decides: exactly seven entries (key sets on every path, all outcomes), Fajr/Asr/Isha on the correct side of the very Dhuhr term '
          'with offsets in [0,12] h (interval domain), nothing flagged extreme and only conventional/interval values under policy None '
          'in every skeleton world. Strict order between values of different solvers is numeric: not decided.'
-         ' Includes the seam hygiene R1.2 and the clock-time conversion rules R11.4/R11.7 (wraps, bounded operands).',
+         ' Includes the seam hygiene R1.2, the clock-time conversion rules R11.4/R11.7 (wraps, bounded operands) and the interval definitions R12.2.',
     note=ASSUME + '; acos in [0, pi]',
     technique='key-set analysis + interval abstract domain on reconstructed terms + skeleton worlds')
 CHECKS['C06'] = dict(
     text='Structural iff: every acos is guarded by the closed interval [-1,1] on exactly its own argument, guarded branch Ok / other Err, '
          'no other validity source, sunrise/sunset share one guard, policy None preserves validity in every skeleton world. '
-         'That |cos H| > 1 matches the astronomical truth to 0.05 deg is numeric: not decided.',
+         'That |cos H| > 1 matches the astronomical truth to 0.05 deg is numeric: not decided.'
+         ' Includes the Imsaak builder rules (R6.5): Imsaak is the rerun\'s Fajr and the minutes fallback applies only to a replaced Fajr.',
     note=ASSUME,
     technique='guard/argument identity on reconstructed terms + skeleton worlds')
 CHECKS['C11'] = dict(
     text='Exhaustive decision table of the time converter (4 modes x 6 keys; Imsaak via the Fajr key): action, threshold constant and '
          'operator, carry constant, minute recomputed from the carried hour, >=24 and <0 wraps, offset key. Float edge behaviour at exact '
-         'second boundaries is not decided.',
+         'second boundaries is not decided.'
+         ' R11.7 bounds the from_hms_opt operands; R11.8 includes the Imsaak wiring rule (Imsaak is converted by the same converter).',
     note=ASSUME,
     technique='conditional constant propagation / abstract interpretation of the converter for every (mode, key) + term pattern checks')
 CHECKS['C13'] = dict(
@@ -64,13 +67,15 @@ CHECKS['C15'] = dict(
          '(typestate over every path), collector leaves its loop only on recv()=Err, workers call the sequential function on the shared '
          'params/location and their own partition element and send that result exactly once, work list = unmodified partition(n) with '
          'the tested n, collector only appends into the returned map. With C14 this gives equality with the sequential map under every '
-         'interleaving.',
+         'interleaving.'
+         ' R15.5 inventories the failure sites of the range API (an argument that must be positive is evaluated for the empty range); includes C14\'s R14.1/R14.3.',
     note=ASSUME + '; mpsc channel closure and thread::scope join semantics; C14',
     technique='move/drop typestate on per-path event traces from abstract interpretation + call/argument identity checks')
 CHECKS['C16'] = dict(
     text='Decides on the reconstructed constructor term: full-circle image (atan2 then degrees), no dependence on elevation, the two Kaaba '
          'constants, east/west antisymmetry (parity domain) and sign convention, rotation label = sign of the same field, Display prints '
-         '|degrees| and the label. The 1e-6 degree agreement is numeric: not decided.',
+         '|degrees| and the label. The 1e-6 degree agreement is numeric: not decided.'
+         ' R16.6: a remainder/wrap applied to the longitude difference has a period that is a multiple of 360 deg.',
     note=ASSUME + '; atan2 image (-pi, pi]',
     technique='interval + parity abstract domains and dependence on the reconstructed bearing term')
 CHECKS['C19'] = dict(
@@ -116,7 +121,7 @@ CHECKS['C12'] = dict(
          'Isha = Maghrib + intervals[Isha]/60, Fajr = Shurooq - intervals[Fajr]/60 (polynomial identity), each entry converted/offset under '
          'its own key, Imsaak branches with documented amounts, absent weather = Weather::default(). Exact minute amounts beyond the /60 '
          'factor are numeric.'
-         ' Includes the clock-time conversion rules R11.4/R11.7 and the policy scope / invalid-gate rules R8.1/R8.2.',
+         ' Includes the clock-time conversion rules R11.4/R11.7, the policy scope / invalid-gate rules R8.1/R8.2 and the own-angle rule R10.2.',
     note=ASSUME + '; dispatch worlds excluded (documented coupling of Fajr/Isha: C08-C10)',
     technique='dependence (non-interference) analysis + polynomial identity on reconstructed terms')
 CHECKS['C09'] = dict(
